@@ -587,5 +587,6 @@ class WebSocketApp:
 
             except Exception as e:
                 _logging.error(f"error from callback {callback}: {e}")
+                self.has_errored = True
                 if self.on_error:
                     self.on_error(self, e)
